@@ -25,7 +25,7 @@ def scale_of(r, style, which):
 def gen_model(g, tier, idx):
     """dimensions + first measurement model (H, R) of one sequence"""
     r = g.r
-    big = 6 if tier == "quick" else 8
+    big = 6 if tier == "quick" else 7
     style = STYLES[idx % len(STYLES)] if idx < 3 * len(STYLES) else r.choice(STYLES)
     if idx < 36:
         n, m = idx // 6 + 1, idx % 6 + 1          # the whole (n, m) grid 1..6 x 1..6 first
@@ -340,7 +340,7 @@ def run(ctx):
     ctx.proof_stage()
     binary = vlib.build_harness("h_kf")
     g = ctx.gen("kfc")
-    N = ctx.n(85, 900)
+    N = ctx.n(85, 320)
     cases = []   # (harness line, [kfc single lines], meta)
     corpus = vlib.VERIF / "corpus" / "C01" / "cases.txt"
     if corpus.exists():
